@@ -81,7 +81,62 @@ def structure(prog):
             out.append(('main/no_cross_file_state[the only function-level names the loop body reads are the options and the stats accumulator]', set(shared) <= {'stats'}, shared))
     except KeyError as e:
         out.append(('main/per_file_loop', None, str(e)))
+    out.append(output_name_lemma(prog))
     return out
+
+
+def output_name_lemma(prog):
+    """the name main() writes is never taken as an input by a later directory run: resolve the expression opened for writing
+    to a concatenation of file_path.stem / file_path.suffix / string literals (single-assignment dataflow on the real AST), then
+    z3 strings: for every input name yielded by get_css_files (suffix == '.css', or the dot-file '.css' whose suffix is empty)
+    the written name ends with '_cm.css' or does not end with '.css'.  A counter-model is a concrete file name (replayed by the twin)."""
+    import ast, z3
+    name = "main/output_name_filtered[the file written for x.css is skipped by get_css_files: ends with '_cm.css' or not '.css'] (dataflow + z3 strings)"
+    try: fn, m = prog.func(f'{CLI}:main')
+    except KeyError as e: return (name, None, str(e))
+    assigns = {}
+    for n in ast.walk(fn):
+        if isinstance(n, ast.Assign) and len(n.targets) == 1 and isinstance(n.targets[0], ast.Name): assigns.setdefault(n.targets[0].id, []).append(n.value)
+    def res(e):
+        d = 0
+        while isinstance(e, ast.Name) and len(assigns.get(e.id, [])) == 1 and d < 6: e = assigns[e.id][0]; d += 1
+        return e
+    opens = [n for n in ast.walk(fn) if isinstance(n, ast.Call) and ast.unparse(n.func) == 'open' and len(n.args) >= 2 and isinstance(n.args[1], ast.Constant) and 'w' in str(n.args[1].value)]
+    if len(opens) != 1: return (name, None, f'{len(opens)} files opened for writing in main')
+    target = res(opens[0].args[0])
+    loopvar = next((ast.unparse(l.target) for l in ast.walk(fn) if isinstance(l, ast.For) and ast.unparse(l.iter) == 'files'), None)
+    if loopvar is None: return (name, None, 'no loop over `files`')
+    if isinstance(target, ast.BinOp) and isinstance(target.op, ast.Div) and ast.unparse(target.left) == f'{loopvar}.parent': nm = res(target.right)
+    elif isinstance(target, ast.Call) and ast.unparse(target.func) == f'{loopvar}.with_name' and len(target.args) == 1: nm = res(target.args[0])
+    else: return (name, None, f'written path {ast.unparse(target)!r} is not <input>.parent / NAME nor <input>.with_name(NAME)')
+    stem, suf = z3.String('stem'), z3.String('suffix')
+    def term(e):
+        e = res(e)
+        if isinstance(e, ast.BinOp) and isinstance(e.op, ast.Add): return z3.Concat(term(e.left), term(e.right))
+        if isinstance(e, ast.Constant) and isinstance(e.value, str): return z3.StringVal(e.value)
+        if ast.unparse(e) == f'{loopvar}.stem': return stem
+        if ast.unparse(e) == f'{loopvar}.suffix': return suf
+        if ast.unparse(e) == f'{loopvar}.name': return z3.Concat(stem, suf)
+        if isinstance(e, ast.JoinedStr):
+            parts = [term(v.value) if isinstance(v, ast.FormattedValue) and v.conversion == -1 and v.format_spec is None else term(v) for v in e.values]
+            return z3.Concat(*parts) if len(parts) > 1 else parts[0]
+        raise ValueError(ast.unparse(e))
+    try: t = term(nm)
+    except ValueError as e: return (name, None, f'written name contains {e} (not stem / suffix / literal)')
+    # pathlib: name == stem + suffix; the inputs get_css_files yields end with '.css': suffix == '.css', or the dot-file '.css' (stem '.css', no suffix).
+    # One query per case with the constants substituted (keeps z3's sequence solver on trivial ground).
+    for case, sub in (("suffix=='.css'", [(suf, z3.StringVal('.css'))]), ("dot-file '.css'", [(suf, z3.StringVal('')), (stem, z3.StringVal('.css'))])):
+        tc = z3.simplify(z3.substitute(t, *sub))
+        so = z3.Solver(); so.set('timeout', 20000)
+        so.add(z3.Length(stem) >= 1, z3.Not(z3.Contains(stem, z3.StringVal('/'))))
+        so.add(z3.SuffixOf(z3.StringVal('.css'), tc), z3.Not(z3.SuffixOf(z3.StringVal('_cm.css'), tc)))
+        r = so.check()
+        if r == z3.sat:
+            mdl = so.model()
+            st_ = '.css' if case.startswith('dot') else mdl.eval(stem, True).as_string()
+            return (name, False, {'written_name': ast.unparse(nm), 'case': case, 'counterexample_input_name': st_ + ('' if case.startswith('dot') else '.css')})
+        if r != z3.unsat: return (name, None, f'z3 ({case}): {so.reason_unknown()}')
+    return (name, True, {'written_name': ast.unparse(nm)})
 
 
 GOOD = ['.a { color: #888; background-color: #fff }\n', ':root { --m: #8a8a8a }\n.b { color: var(--m) }\n@media print { .c { color: #999 } }\n', '/* only a comment */\n.d { margin: 0 }\n',
@@ -94,7 +149,7 @@ def gen_tree(rng, idx):
     names = []
     for i in range(n):
         d = rng.choice(['', 'sub/', 'sub/deep/', 'z/'])
-        nm = f'{d}f{idx}_{i}.css'; names.append(nm)
+        nm = f'{d}f{idx}_{i}' + rng.choice(['', '', '.min', '.v1.2', '_cm.min', '.css']) + '.css'; names.append(nm)
         files[nm] = rng.choice(GOOD)
     faults = rng.sample(['nonutf8', 'dir', 'dangling', 'unserialisable', 'empty', 'orphan_cm', 'vars_elsewhere', 'unreadable'], rng.randrange(1, 4))
     for f in faults:
@@ -158,6 +213,7 @@ def run(args):
         ('variables hoisted out of the per-file loop', ['            variables = {}\n            # We need a way', '    for file_path in files:\n        try:'], ['            # We need a way', '    variables = {}\n    for file_path in files:\n        try:']),
         ('_cm.css filter dropped', '            if not p.name.endswith("_cm.css"):\n                yield p', '            if True:\n                yield p'),
         ('handler re-raises', '            click.echo(f"Error processing {file_path}: {e}", err=True)', '            click.echo(f"Error processing {file_path}: {e}", err=True)\n            raise'),
+        ('output named <stem>_cm.min.css', 'output_filename = file_path.stem + "_cm" + file_path.suffix', 'output_filename = file_path.stem + "_cm.min" + file_path.suffix'),
         ('only decode errors are caught', '        except Exception as e:\n            click.echo(f"Error processing', '        except UnicodeDecodeError as e:\n            click.echo(f"Error processing'),
     ]:
         ov = mutate(prog, CLI, old, new)
